@@ -413,6 +413,12 @@ async def relogin_shared(net, hyg, plan):
             for who in plan["via"]:
                 await ss[i].run([["login", who]])
             await ss[i].run([["login", "slow"]])
+        for j in range(plan.get("churn", 0)):
+            # one of the user's sessions leaves, a new one arrives: the limit is still one limit for all of them
+            await ss[j].step(["quit"])
+            fresh = Session(net, 2121, name=f"late{j}")
+            await fresh.run([["connect"], ["login", "slow"], ["cmd", "TYPE I"]])
+            ss[j] = fresh
         for s in ss:
             await s.run([[plan.get("pcmd", "epsv")]])
         t0 = loop.time()
@@ -526,6 +532,10 @@ def gen_cases(tier, seed):
             for d in ("download", "upload"):
                 rel.append({"kind": "relogin_shared", "seed": seed, "sessions": n, "relogins": relogins, "via": via, "direction": d,
                             "L": rng.choice([30000, 40000]), "size": rng.choice([60000, 90000]), "pcmd": rng.choice(["pasv", "epsv"])})
+    for n, churn in ((2, 1), (3, 1), (3, 2)):
+        for d in ("download", "upload"):
+            rel.append({"kind": "relogin_shared", "seed": seed, "sessions": n, "relogins": [], "via": [], "churn": churn, "direction": d,
+                        "L": rng.choice([30000, 40000]), "size": rng.choice([60000, 90000]), "pcmd": rng.choice(["pasv", "epsv"])})
     per = 40
     api = [p for p in plans if p["kind"] == "api"]
     ee = [p for p in plans if p["kind"] == "e2e"]
